@@ -285,20 +285,25 @@ func (t *c15Tracer) TransitionEnd(tx *am.Transition) {
 		t.maxSeen = a
 	}
 	neutral := ev == "EOther" && rec.FGate == nil && rec.RGate == nil && len(rec.Kills) == 0
+	isList := strings.Contains(name, c15S.ListWorkers)
+	if !isList {
+		t.last = time.Now()
+	}
 	if neutral && len(t.recs) > 0 {
 		p := t.recs[len(t.recs)-1]
-		if p.Tracked == a && p.Ready == r && slices.Equal(p.After, before) &&
-			(slices.Equal(after, before) || strings.Contains(name, c15S.ListWorkers)) {
+		same := func(x, y []int) bool {
+			// compare without the ListWorkers getter state
+			li := t.idx[c15S.ListWorkers]
+			f := func(l []int) []int {
+				return slices.DeleteFunc(slices.Clone(l), func(i int) bool { return i == li })
+			}
+			return slices.Equal(f(x), f(y))
+		}
+		if p.Tracked == a && p.Ready == r && same(p.After, before) && same(after, before) {
 			// a neutral sample that shows nothing new
 			t.dropped++
-			if !strings.Contains(name, c15S.ListWorkers) {
-				t.last = time.Now()
-			}
 			return
 		}
-	}
-	if !strings.Contains(name, c15S.ListWorkers) {
-		t.last = time.Now()
 	}
 	t.recs = append(t.recs, rec)
 	select {
@@ -945,10 +950,10 @@ func c15Pair(p []int) string {
 }
 
 func c15CoqRec(r *c15Rec) string {
-	return fmt.Sprintf("{| o_ev := %s; o_acc := %s; o_fgate := %s; o_rgate := %s; o_rstable := %s; "+
+	return fmt.Sprintf("{| o_ev := %s; o_acc := %s; o_fgate := %s; o_rgate := %s; o_rexit := %s; o_rstable := %s; "+
 		"o_tracked := %d; o_ready := %d; o_min := %d; o_exact := %s; o_before := %s; o_after := %s; "+
 		"o_kills := %s; o_started := %s |}",
-		r.Ev, coqBool(r.Acc), c15Pair(r.FGate), c15Pair(r.RGate), coqBool(r.RStable),
+		r.Ev, coqBool(r.Acc), c15Pair(r.FGate), c15Pair(r.RGate), coqBool(r.RExit), coqBool(r.RStable),
 		r.Tracked, r.Ready, r.MinEff, coqBool(r.Exact), coqNatList(r.Before), coqNatList(r.After),
 		coqNatList(r.Kills), coqBool(r.Started))
 }
